@@ -5,7 +5,10 @@
 (* the granularity of single file-system steps, with a crash possible      *)
 (* between any two of them and again during recovery.                      *)
 (*                                                                         *)
-(*  WriteNew(i)     new file i written as  <name>.tssp.init                *)
+(*  CreateNew(i)    the compaction itself: new file i created as           *)
+(*                  <name>.tssp.init and being written (a crash now leaves *)
+(*                  a half-written temporary file)                         *)
+(*  WriteNew(i)     new file i complete (written + synced), still .init    *)
 (*  LogCreate/LogWrite  compact log created / its content written+synced   *)
 (*                  (a crash in between leaves a dirty log = ignored)      *)
 (*  RenameNew(i)    RenameTmpFiles: .init -> final name                    *)
@@ -32,7 +35,8 @@ CONSTANTS NOld,      \* old files listed in the log   1..NOld
           Dev
 
 VARIABLES old,      \* [1..NOld -> "final" | "tmp" | "gone"]     (tmp = renamed to .init while in use)
-          new,      \* [1..NNew -> "none" | "init" | "final"]
+          new,      \* [1..NNew -> "none" | "partial" | "init" | "final" | "torn"]
+                    \*   partial = .init file being written; torn = a half-written file under its final name
           tail,     \* [1..NTail -> "final" | "gone"]
           clog,     \* "none" | "dirty" | "ok"
           pc,       \* protocol position
@@ -54,11 +58,16 @@ Rows == 1..(NOld + NTail)
 OldRows(j) == {j}
 TailRows(t) == {NOld + t}
 NewRows(i) == {r \in Rows : r % NNew = i % NNew}
+\* a half-written file holds fewer rows than it should (here: none)
+TornRows(i) == {}
 
 \* files a reader (or Open) sees: final names only
 Visible == UNION ({OldRows(j) : j \in {x \in Olds : old[x] = "final"}}
                   \cup {TailRows(t) : t \in {x \in Tails : tail[x] = "final"}}
-                  \cup {NewRows(i) : i \in {x \in News : new[x] = "final"}})
+                  \cup {NewRows(i) : i \in {x \in News : new[x] = "final"}}
+                  \cup {TornRows(i) : i \in {x \in News : new[x] = "torn"}})
+\* no half-written file is ever visible under a final name
+NoTornVisible == \A i \in News : new[i] # "torn"
 
 Init == /\ old = [j \in Olds |-> "final"] /\ new = [i \in News |-> "none"]
         /\ tail = [t \in Tails |-> "final"]
@@ -67,12 +76,19 @@ Init == /\ old = [j \in Olds |-> "final"] /\ new = [i \in News |-> "none"]
 
 Running == mode = "run" /\ ~done
 
-WriteNew(i) == /\ Running /\ pc = "writing" /\ new[i] = "none"
-               /\ \A k \in News : k < i => new[k] # "none"
+CreateNew(i) == /\ Running /\ pc = "writing" /\ new[i] = "none"
+                /\ \A k \in News : k < i => new[k] \notin {"none", "partial"}
+                /\ new' = [new EXCEPT ![i] = "partial"]
+                /\ UNCHANGED <<old, tail, clog, pc, mode, rpc, decision, ncrash, done>>
+
+WriteNew(i) == /\ Running /\ pc = "writing" /\ new[i] = "partial"
                /\ new' = [new EXCEPT ![i] = "init"]
                /\ UNCHANGED <<old, tail, clog, pc, mode, rpc, decision, ncrash, done>>
 
-LogCreate == /\ Running /\ pc = "writing" /\ \A i \in News : new[i] = "init"
+LogCreate == /\ Running /\ pc = "writing"
+             /\ IF "log_before_files_complete" \in Dev
+                  THEN \A i \in News : new[i] \in {"partial", "init"}
+                  ELSE \A i \in News : new[i] = "init"
              /\ clog' = IF "skip_log" \in Dev THEN "none" ELSE "dirty"
              /\ pc' = "logging"
              /\ UNCHANGED <<old, new, tail, mode, rpc, decision, ncrash, done>>
@@ -88,7 +104,7 @@ RenameNew(i) == /\ Running /\ new[i] = "init"
                 /\ new' = [new EXCEPT ![i] = "final"]
                 /\ UNCHANGED <<old, tail, clog, pc, mode, rpc, decision, ncrash, done>>
 
-AllRenamed == \A i \in News : new[i] = "final"
+AllRenamed == \A i \in News : new[i] \in {"final", "torn"}
 
 DeleteOld(j) == /\ Running /\ old[j] = "final"
                 /\ \/ (pc = "renaming" /\ AllRenamed)
@@ -115,7 +131,8 @@ Crash == /\ mode \in {"run", "rec"} /\ ncrash < MaxCrash
          /\ UNCHANGED <<old, new, tail, clog, pc, done>>
 
 \* procCompactLog: a dirty log is skipped; otherwise processLog decides by what exists on disk
-AllNewExist == \A i \in News : new[i] \in {"init", "final"}
+\* (by name only: a half-written .init file "exists")
+AllNewExist == \A i \in News : new[i] \in {"partial", "init", "final", "torn"}
 AllOldExist == \A j \in Olds : old[j] \in {"final", "tmp"}
 
 RecReadLog ==
@@ -127,8 +144,8 @@ RecReadLog ==
   /\ rpc' = "fix"
   /\ UNCHANGED <<old, new, tail, clog, pc, ncrash, done>>
 
-RecRenameNew(i) == /\ mode = "rec" /\ rpc = "fix" /\ decision = "forward" /\ new[i] = "init"
-                   /\ new' = [new EXCEPT ![i] = "final"]
+RecRenameNew(i) == /\ mode = "rec" /\ rpc = "fix" /\ decision = "forward" /\ new[i] \in {"init", "partial"}
+                   /\ new' = [new EXCEPT ![i] = IF new[i] = "init" THEN "final" ELSE "torn"]
                    /\ UNCHANGED <<old, tail, clog, pc, mode, rpc, decision, ncrash, done>>
 
 RecDeleteOld(j) == /\ mode = "rec" /\ rpc = "fix" /\ decision = "forward" /\ AllRenamed
@@ -151,12 +168,12 @@ RecRemoveLog == /\ mode = "rec" /\ rpc = "fix" /\ FixDone
 
 \* Open loads every file with a final name; *.init files are ignored and removed
 RecLoad == /\ mode = "rec" /\ rpc = "load"
-           /\ new' = [i \in News |-> IF new[i] = "init" THEN "none" ELSE new[i]]
+           /\ new' = [i \in News |-> IF new[i] \in {"init", "partial"} THEN "none" ELSE new[i]]
            /\ old' = [j \in Olds |-> IF old[j] = "tmp" THEN "gone" ELSE old[j]]
            /\ mode' = "run" /\ rpc' = "none" /\ done' = TRUE /\ clog' = "none"
            /\ UNCHANGED <<tail, pc, decision, ncrash>>
 
-Next == \/ \E i \in News : WriteNew(i) \/ RenameNew(i) \/ RecRenameNew(i)
+Next == \/ \E i \in News : CreateNew(i) \/ WriteNew(i) \/ RenameNew(i) \/ RecRenameNew(i)
         \/ \E j \in Olds : DeleteOld(j) \/ RecDeleteOld(j) \/ RecRenameOld(j)
         \/ \E t \in Tails : DeleteTail(t)
         \/ LogCreate \/ LogWrite \/ LogRemove \/ Finish
